@@ -20,7 +20,8 @@ quiet_naunet()
 MODULES = ["NaunetProps.C17"]
 THEOREMS = ["Naunet.C17.order_independent", "Naunet.C17.order_idempotent", "Naunet.C17.noninterference",
             "Naunet.C17.leak_example", "Naunet.C17.le_antisymm'", "Naunet.C17.le_total'", "Naunet.C17.le_trans'"]
-RULE = ("network descriptions (default element list, upper-case list, 'G' surface prefix, KROME file with @var/@common) x "
+RULE = ("network descriptions (default element list, upper-case list, 'G' surface prefix, KROME file with @var/@common, ice on "
+        "three grain populations with the hh93 model) x "
         "{fresh process per PYTHONHASHSEED, repeated rendering, interleaving with building/editing/rendering other networks, "
         "user binding energies set for another project, two `naunet render` runs in one process}; case = one rendering whose "
         "sha256 over include/ src/ python/ is compared with the description's baseline; non-trivial = network has reactions")
@@ -66,6 +67,15 @@ def descriptions(rng, tier):
              "3,H+,E,,H,,,,>5.5e3,NONE,exp(-28.61303380689232d0)*user_crate\n"
              "4,HE,E,,HE+,E,E,,NONE,NONE,2.38d-11*sqrt(Tgas)*ntot\n")
     out["krome"] = {"elements": ["E", "H", "HE"], "pseudo": ["g"], "kwargs": {}, "files": [[krome, "krome"]]}
+    # D5: ice species on several grain populations (#1…, #2…, #3…): one Grain component per group
+    mg = [native(1, ["H", "OH"], ["H2O"]), native(2, ["C", "OH"], ["CO", "H"]), native(3, ["N", "N"], ["N2"]),
+          native(4, ["H2O"], ["#1H2O"], a=1.0, ty=200), native(5, ["#1H2O"], ["H2O"], a=1.0, ty=201),
+          native(6, ["N2"], ["#3N2"], a=1.0, ty=200), native(7, ["#3N2"], ["N2"], a=1.0, ty=201),
+          native(8, ["CO"], ["#2CO"], a=1.0, ty=200), native(9, ["#2CO"], ["CO"], a=1.0, ty=201),
+          native(10, ["CO"], ["#1CO"], a=1.0, ty=200), native(11, ["#1CO"], ["CO"], a=1.0, ty=201)]
+    rng.shuffle(mg)
+    out["multigroup"] = {"elements": DEFAULT_ELEMENTS, "pseudo": DEFAULT_PSEUDO, "kwargs": {}, "grain_model": "hh93",
+                         "files": [["\n".join(mg) + "\n", "naunet"]]}
     return out
 
 
@@ -78,7 +88,7 @@ def run_worker(job, hashseed):
     return json.loads(r.stdout.strip().split("\n")[-1])
 
 
-def make_cli_project(d: Path, desc, name, binding=None, method="dense"):
+def make_cli_project(d: Path, desc, name, binding=None, method="dense", replacement=None):
     """write a project directory readable by `naunet render` (keys as written by the init command)"""
     import tomlkit
     d.mkdir(parents=True, exist_ok=True)
@@ -92,7 +102,7 @@ def make_cli_project(d: Path, desc, name, binding=None, method="dense"):
         "general": {"creation_time": "x", "name": name, "description": "", "loads": []},
         "chemistry": {
             "symbol": {"grain": kw.get("grain_symbol", "GRAIN"), "surface": kw.get("surface_prefix", "#"), "bulk": kw.get("bulk_prefix", "@")},
-            "element": {"elements": desc["elements"], "pseudo_elements": desc["pseudo"], "replacement": {}},
+            "element": {"elements": desc["elements"], "pseudo_elements": desc["pseudo"], "replacement": replacement or {}},
             "species": {"allowed": [], "required": desc.get("required", []), "binding_energy": binding or {}, "photon_yield": {}},
             "grain": {"model": desc.get("grain_model", "")},
             "network": {"files": files, "formats": [f for _, f in desc["files"]]},
@@ -142,7 +152,8 @@ def run(argv):
     # (c2) editing A after B was built: the late line must be parsed with A's own lists
     extra = {"upper": (native(77, ["MG+", "E"], ["MG"]), "naunet"), "default": (native(77, ["Mg+", "e-"], ["Mg"]), "naunet"),
              "krome": ("5,HE+,E,,HE,,,,NONE,NONE,1.0d-11", "krome"),
-             "gprefix": (netgen.leeds_line(77, ["GH", "GCO"], ["GHCO"]), "leeds")}
+             "gprefix": (netgen.leeds_line(77, ["GH", "GCO"], ["GHCO"]), "leeds"),
+             "multigroup": (native(77, ["#2N2"], ["N2"], a=1.0, ty=201), "naunet")}
     for a in names:
         line, fmt = extra[a]
         base_steps = [{"op": "build", "id": "A", "desc": descs[a]}, {"op": "add_line", "id": "A", "line": line, "fmt": fmt},
@@ -164,6 +175,15 @@ def run(argv):
     for tag, d, be in (("p1", descs["upper"], None), ("p2", descs["default"], None), ("p2alone", descs["default"], None),
                        ("ice1", ice, {"GCO": 999.0}), ("ice2", ice, {}), ("ice2alone", ice, {})):
         make_cli_project(cli_root / tag, d, "proj", binding=be)
+    # a replacement table belongs to its own project: the same upper-case network with and without one
+    REPL = {"E": "e", "HE": "He", "MG": "Mg", "SI": "Si", "CL": "Cl"}
+    for tag, rp in (("up-repl", REPL), ("up-plain", None), ("up-plain-alone", None), ("up-repl-alone", REPL)):
+        make_cli_project(cli_root / tag, descs["upper"], "proj", replacement=rp)
+    jobs.append(("cli-upper-plain-alone", {"steps": [{"op": "cli_render", "dir": str(cli_root / "up-plain-alone"), "tag": ["cli-upper-plain", "dense"]}]}, 0))
+    jobs.append(("cli-upper-repl-alone", {"steps": [{"op": "cli_render", "dir": str(cli_root / "up-repl-alone"), "tag": ["cli-upper-repl", "dense"]}]}, 0))
+    jobs.append(("cli-upper-plain-after-repl", {"steps": [
+        {"op": "cli_render", "dir": str(cli_root / "up-repl"), "tag": ["cli-upper-repl", "dense"]},
+        {"op": "cli_render", "dir": str(cli_root / "up-plain"), "tag": ["cli-upper-plain", "dense"]}]}, 1))
     jobs.append(("cli-p2-alone", {"steps": [{"op": "cli_render", "dir": str(cli_root / "p2alone"), "tag": ["cli-default", "dense"]}]}, 0))
     jobs.append(("cli-p2-after-p1", {"steps": [{"op": "cli_render", "dir": str(cli_root / "p1"), "tag": ["cli-upper", "dense"]},
                                                {"op": "cli_render", "dir": str(cli_root / "p2"), "tag": ["cli-default", "dense"]}]}, 1))
@@ -183,9 +203,9 @@ def run(argv):
             chk.count((label, tag, len(baseline)), nontrivial=True)
             chk.hist[label.split("-")[0]] += 1
             if "error" in item:
-                chk.violation({"kind": "render-raised", "job": label.split("-")[0], "description": tag[0]},
-                              f"rendering {tag} raised in job {label}: {item['error']}", job=label)
-                continue
+                # a rendering that is refused is an outcome like any other: it must be refused every time, the same way
+                item = dict(item, hash="refused: " + str(item["error"]).split(":")[0])
+                chk.hist["refused"] += 1
             if tag not in baseline:
                 baseline[tag] = (item["hash"], label)
             elif baseline[tag][0] != item["hash"]:
